@@ -9,6 +9,7 @@ import (
 
 	"github.com/xelaj/mtproto/telegram/verifh/hx"
 	"github.com/xelaj/mtproto/telegram/verifh/scen"
+	"github.com/xelaj/mtproto/telegram/verifh/tlx"
 	"pgregory.net/rapid"
 	"verif/evid"
 )
@@ -26,12 +27,77 @@ func (r rapidSource) Int(label string, n int) int      { return rapid.IntRange(0
 var eventKinds = []string{"pong", "ack", "new-session", "bad-msg", "state-info", "all-info", "detailed-info", "new-detailed-info", "future-salts",
 	"bad-salt-unknown", "bad-salt-answered", "rotate",
 	"result-unknown", "result-again", "error-unknown", "update", "updates-too-long", "unknown-ctor", "truncated", "empty-body", "empty-container", "nested-container", "raw-soup", "close",
+	"schema-object", "schema-object", "schema-object",
 	"cut:result-unknown", "cut:pong", "cut:ack", "cut:bad-msg", "cut:state-info", "cut:update", "cut:nested-container", "cut:future-salts"}
 
 var wellFormedService = map[string]bool{"pong": true, "ack": true, "new-session": true, "update": true, "updates-too-long": true, "state-info": true, "all-info": true,
 	"detailed-info": true, "new-detailed-info": true, "bad-salt-unknown": true, "bad-salt-answered": true, "rotate": true}
 
+// schema-object: a well-formed value of any constructor or function of mtproto.tl, or any constructor of the API layer,
+// generated from the schema text and serialised by the reference codec (Def names it, Body carries the bytes)
+var (
+	sch     *tlx.Schema
+	objDefs []*tlx.Def // everything the generator can build
+	nMT     int        // the first nMT of them are mtproto.tl
+)
+
+type u64Source struct{ s scen.Source }
+
+func (u u64Source) U64() uint64 {
+	b := u.s.Bytes("obj", 8)
+	var x uint64
+	for i := 0; i < 8; i++ {
+		x |= uint64(b[i]) << (8 * i)
+	}
+	return x
+}
+
+func setupSchema(t *testing.T) {
+	if sch != nil {
+		return
+	}
+	var err error
+	if sch, err = tlx.Load(); err != nil {
+		t.Fatalf("INFRA: %v", err)
+	}
+	try := func(d *tlx.Def) bool {
+		// definitions the reference codec cannot always serialise (items of msg_container are not boxed) stay out
+		for seed := uint64(1); seed <= 12; seed++ {
+			g := &tlx.AGen{Sch: sch, S: u64Source{&detSource{seed: seed}}, MaxDepth: 2}
+			v, err := g.Val(d, 2)
+			if err != nil {
+				return false
+			}
+			if _, err = tlx.Encode(v); err != nil {
+				return false
+			}
+		}
+		return true
+	}
+	for _, d := range sch.Defs {
+		if d.File == "mtproto.tl" && !d.Generic && try(d) {
+			objDefs = append(objDefs, d)
+		}
+	}
+	nMT = len(objDefs)
+	for _, d := range sch.API(false) {
+		if !d.Function && !d.Generic && try(d) {
+			objDefs = append(objDefs, d)
+		}
+	}
+}
+
+func schemaObject(src scen.Source, d *tlx.Def) ([]byte, error) {
+	g := &tlx.AGen{Sch: sch, S: u64Source{src}, MaxDepth: 2}
+	v, err := g.Val(d, 2)
+	if err != nil {
+		return nil, err
+	}
+	return tlx.Encode(v)
+}
+
 type Event struct {
+	Def            string `json:",omitempty"`
 	Kind           string
 	Gzip           bool
 	InContainer    bool
@@ -85,6 +151,8 @@ func build(s scen.Source, events []Event) *scen.Scenario {
 				p = &scen.PushSpec{Kind: "raw", Body: whole[:n], InContainer: ev.InContainer, ContentRelated: ev.ContentRelated}
 			}
 			switch ev.Kind {
+			case "schema-object":
+				p.Kind = "raw"
 			case "error-unknown":
 				p.Kind = "raw"
 				// rpc_result{req_msg_id = unknown, rpc_error{420, FLOOD_WAIT_3}}
@@ -189,6 +257,19 @@ func genEvents(t *rapid.T) []Event {
 		ev.Gzip = rapid.IntRange(0, 4).Draw(t, "gzip") == 0
 		ev.InContainer = rapid.IntRange(0, 3).Draw(t, "container") == 0
 		ev.ContentRelated = rapid.Bool().Draw(t, "content")
+		if ev.Kind == "schema-object" {
+			var d *tlx.Def
+			if rapid.Bool().Draw(t, "mtproto-def") {
+				d = objDefs[rapid.IntRange(0, nMT-1).Draw(t, "def")]
+			} else {
+				d = objDefs[rapid.IntRange(nMT, len(objDefs)-1).Draw(t, "def")]
+			}
+			if b, err := schemaObject(rapidSource{t}, d); err == nil {
+				ev.Def, ev.Body = d.File+":"+d.Name, b
+			} else {
+				ev.Kind = "pong" // the reference codec cannot serialise this value: not an event
+			}
+		}
 		if ev.Kind == "raw-soup" {
 			ev.Body = rapid.SliceOfN(rapid.Byte(), 0, 40).Draw(t, "soup")
 			ev.Body = ev.Body[:len(ev.Body)/4*4]
@@ -214,6 +295,9 @@ func evaluate(sc *scen.Scenario, events []Event) error {
 		cls = append(cls, "event:"+ev.Kind)
 		if ev.Kind != "pong" && ev.Kind != "ack" {
 			nt = true
+		}
+		if ev.Kind == "schema-object" {
+			cls = append(cls, "schema-object:"+strings.SplitN(ev.Def, ":", 2)[0])
 		}
 		if ev.Gzip {
 			cls = append(cls, "event-gzip-packed")
@@ -250,6 +334,7 @@ type caseT struct {
 }
 
 func TestC16(t *testing.T) {
+	setupSchema(t)
 	if p := hx.ReplayPath(); p != "" {
 		var c caseT
 		if err := evid.LoadReplay(p, &c); err != nil {
@@ -268,7 +353,12 @@ func TestC16(t *testing.T) {
 	t.Run("each-event-once", func(t *testing.T) {
 		nsh, idx := hx.NShards(), 0
 		var n int64
+		seenKind := map[string]bool{}
 		for _, k := range eventKinds {
+			if seenKind[k] || k == "schema-object" {
+				continue
+			}
+			seenKind[k] = true
 			for _, variant := range []Event{{}, {Gzip: true}, {InContainer: true}, {ContentRelated: true}} {
 				idx++
 				if idx%nsh != run.Shard {
@@ -300,6 +390,47 @@ func TestC16(t *testing.T) {
 			}
 		}
 		run.Exhaustive("every event kind alone x {plain, gzip, in container, content-related} (this shard's share)", n)
+	})
+	if t.Failed() {
+		return
+	}
+	t.Run("each-schema-object", func(t *testing.T) {
+		// every definition of mtproto.tl once (constructors and functions: a server can send either), and a sample of the
+		// API layer's constructors, each as the only event of a history
+		nsh := hx.NShards()
+		var n int64
+		nAPI := run.Pick(48, 1200)
+		for i, d := range objDefs {
+			if i >= nMT {
+				k := i - nMT
+				total := len(objDefs) - nMT
+				// an evenly spread, seed-dependent sample of the API constructors
+				if nAPI < total && int((uint64(k)*2654435761+run.Seed*97)%uint64(total)) >= nAPI {
+					continue
+				}
+			}
+			if i%nsh != run.Shard%nsh {
+				continue
+			}
+			src := &detSource{seed: run.Seed*31 + uint64(i)}
+			b, err := schemaObject(src, d)
+			if err != nil {
+				continue
+			}
+			ev := Event{Kind: "schema-object", Def: d.File + ":" + d.Name, Body: b, ContentRelated: i%2 == 0, InContainer: i%5 == 0, Gzip: i%7 == 0}
+			events := []Event{ev}
+			sc := build(src, events)
+			n++
+			if err := evaluate(sc, events); err != nil {
+				if strings.HasPrefix(err.Error(), "INFRA:") {
+					t.Logf("inconclusive: %v", err)
+					continue
+				}
+				p := run.ViolationNamed(fmt.Sprintf("object-%s", strings.ReplaceAll(d.Name, ".", "_")), caseT{events, sc}, err.Error())
+				t.Errorf("violation (replay %s) [%s]: %v", p, ev.Def, err)
+			}
+		}
+		run.Exhaustive("every mtproto.tl definition + a sample of API constructors as the only server event (this shard's share)", n)
 	})
 	if t.Failed() {
 		return
